@@ -1,3 +1,1 @@
 package main
-
-func runGround(w *World, which string) []*FnResult { return nil }
